@@ -336,3 +336,17 @@ func gi(n string) int { return verif_ghost_int(n) }
 //@   requires wasiCall(mod, params, 2)
 //@   ensures[truncates-to-exactly-that-size] r0 == 0 ==> gi("truncCalls") == old(gi("truncCalls")) + 1 && gi("truncSize") == int(int64(params[1]))
 //@   nosafety
+
+// Positional I/O: each chunk of an fd_pread / fd_pwrite vector is transferred at the cursor, which then
+// advances by exactly the number of bytes transferred (the descriptor's own offset is not involved).
+//@ func (w *preader) Read(buf []byte) (n int, errno experimentalsys.Errno)
+//@   requires w.f != nil && w.offset >= 0 && w.offset < 1<<62
+//@   ensures[reads-at-the-cursor] len(buf) > 0 ==> gi("preadOff") == int(old(w.offset))
+//@   ensures[cursor-advances-by-what-was-read] 0 <= n && n <= len(buf) && w.offset == old(w.offset) + int64(n)
+//@   modifies w.offset, elems(buf), ghost("preadOff")
+
+//@ func (w *pwriter) Write(buf []byte) (n int, errno experimentalsys.Errno)
+//@   requires w.f != nil && w.offset >= 0 && w.offset < 1<<62
+//@   ensures[writes-at-the-cursor] len(buf) > 0 ==> gi("pwriteOff") == int(old(w.offset))
+//@   ensures[cursor-advances-by-what-was-written] 0 <= n && n <= len(buf) && w.offset == old(w.offset) + int64(n)
+//@   modifies w.offset, ghost("pwriteOff"), ghost("fsMutations")
